@@ -885,3 +885,118 @@ Proof. intros s H. unfold field_of_spec. rewrite H. reflexivity. Qed.
 Example unknown_spec_witness :
   from_spec_with_nullable [102; 111; 111; 32; 124; 32; 110; 117; 108; 108]%N = None.   (* "foo | null" *)
 Proof. vm_compute. reflexivity. Qed.
+
+(** * Persistence: the registry after a restart is the registry before it *)
+
+Lemma reg_insert_absent : forall r et sc, aget r et = None -> reg_insert r et sc = r ++ [(et, sc)].
+Proof.
+  induction r as [|[k s] r IH]; intros et sc H; cbn in *; [reflexivity|].
+  destruct (bytes_eqb k et); [discriminate|]. rewrite IH by exact H. reflexivity.
+Qed.
+
+Lemma aget_of_not_mem : forall {A} (m : list (bytes * A)) k, mem_bytes k (map fst m) = false -> aget m k = None.
+Proof.
+  intros A m k H. destruct (aget m k) as [v|] eqn:E; [|reflexivity].
+  apply aget_In in E. assert (X : mem_bytes k (map fst m) = true).
+  { apply mem_bytes_In. change k with (fst (k, v)). apply in_map. exact E. }
+  congruence.
+Qed.
+
+Lemma uniq_bytes_app_l : forall a b, uniq_bytes (a ++ b) = true -> uniq_bytes a = true.
+Proof.
+  induction a as [|x a IH]; intros b H; cbn in *; [reflexivity|].
+  apply andb_true_iff in H. destruct H as [H1 H2]. apply andb_true_iff. split; [|eapply IH; exact H2].
+  rewrite mem_bytes_app in H1. apply negb_true_iff in H1. apply orb_false_iff in H1. apply negb_true_iff. apply H1.
+Qed.
+
+Lemma uniq_bytes_mid : forall a x b, uniq_bytes (a ++ x :: b) = true -> mem_bytes x a = false.
+Proof.
+  induction a as [|y a IH]; intros x b H; cbn in *; [reflexivity|].
+  apply andb_true_iff in H. destruct H as [H1 H2]. apply orb_false_iff. split; [|eapply IH; exact H2].
+  apply negb_true_iff in H1. rewrite mem_bytes_app in H1. apply orb_false_iff in H1. destruct H1 as [_ H1].
+  cbn in H1. apply orb_false_iff in H1. destruct H1 as [H1 _].
+  apply bytes_eqb_neq. apply bytes_eqb_neq in H1. congruence.
+Qed.
+
+Lemma replay_from : forall l acc, keys_unique (acc ++ l) = true ->
+  fold_left (fun r rc => reg_insert r (fst rc) (snd rc)) l acc = acc ++ l.
+Proof.
+  induction l as [|[et sc] l IH]; intros acc H; cbn [fold_left fst snd]; [rewrite app_nil_r; reflexivity|].
+  assert (Hn : aget acc et = None).
+  { apply aget_of_not_mem. unfold keys_unique in H. rewrite map_app in H. cbn [map fst] in H.
+    eapply uniq_bytes_mid. exact H. }
+  rewrite (reg_insert_absent acc et sc Hn).
+  rewrite IH; rewrite <- app_assoc; cbn [app]; [reflexivity|exact H].
+Qed.
+
+Theorem replay_unique : forall l, keys_unique l = true -> replay l = l.
+Proof. intros l H. unfold replay. rewrite (replay_from l [] H). reflexivity. Qed.
+
+(** the records on disk are exactly the registry in memory, and event types are unique *)
+Definition ps_inv (ps : pstate) : Prop := ps_log ps = ps_reg ps /\ keys_unique (ps_reg ps) = true.
+
+Lemma ps_inv_init : ps_inv ps_init.
+Proof. split; reflexivity. Qed.
+
+Lemma ps_inv_restart : forall ps, ps_inv ps -> restart_p ps = ps.
+Proof.
+  intros [r l] [E U]. cbn [ps_reg ps_log] in *. subst l. unfold restart_p. cbn [ps_reg ps_log]. rewrite (replay_unique r U). reflexivity.
+Qed.
+
+Lemma ps_inv_step : forall ps op, ps_inv ps -> ps_inv (step_p ps op).
+Proof.
+  intros ps op I. destruct op as [et cs|]; cbn [step_p].
+  - destruct ps as [r l]. destruct I as [E U]. cbn [ps_reg ps_log] in E, U. subst l.
+    unfold define_p, define. cbn [ps_reg ps_log].
+    destruct (reg_get r et) eqn:Eg; [split; [reflexivity|exact U]|].
+    destruct cs as [|c cs]; [split; [reflexivity|exact U]|]. cbn [fst]. split; [reflexivity|].
+    cbn [ps_reg]. unfold keys_unique in *. rewrite map_app. cbn [map fst]. apply uniq_bytes_snoc; [exact U|].
+    apply aget_none_not_mem. rewrite <- reg_get_aget. exact Eg.
+  - rewrite (ps_inv_restart ps I). exact I.
+Qed.
+
+Lemma ps_inv_fold : forall ops ps, ps_inv ps -> ps_inv (fold_left step_p ops ps).
+Proof. induction ops as [|op ops IH]; intros ps H; cbn [fold_left]; [exact H|]. apply IH. apply ps_inv_step. exact H. Qed.
+
+Lemma ps_inv_run : forall ops, ps_inv (run_p ops).
+Proof. intro ops. apply ps_inv_fold. apply ps_inv_init. Qed.
+
+(** Replaying the file written by ANY history of DEFINEs and restarts yields the state the
+    process had: registry (hence every STORE verdict) and file are unchanged by a restart. *)
+Theorem restart_same_registry : forall ops,
+  restart_p (run_p ops) = run_p ops /\
+  (forall cmd, store_check (ps_reg (restart_p (run_p ops))) cmd = store_check (ps_reg (run_p ops)) cmd).
+Proof.
+  intro ops. pose proof (ps_inv_restart _ (ps_inv_run ops)) as R. split; [exact R|]. intro cmd. rewrite R. reflexivity.
+Qed.
+
+(** A DEFINE answered with an error leaves no trace: neither in memory nor in the file, so not
+    after a restart either. *)
+Theorem rejected_define_no_trace_p : forall ps et cs e,
+  define (ps_reg ps) et cs = DefErr e ->
+  fst (define_p ps et cs) = ps /\ snd (define_p ps et cs) = Some e /\
+  restart_p (fst (define_p ps et cs)) = restart_p ps.
+Proof.
+  intros ps et cs e H. unfold define_p. rewrite H. cbn [fst snd]. repeat split; reflexivity.
+Qed.
+
+(** The first accepted schema of an event type stays in force through every later DEFINE
+    (accepted or rejected) and every restart. *)
+Theorem accepted_schema_survives : forall ops ops' et sc,
+  reg_get (ps_reg (run_p ops)) et = Some sc ->
+  reg_get (ps_reg (run_p (ops ++ ops'))) et = Some sc.
+Proof.
+  intros ops ops' et sc H. unfold run_p. rewrite fold_left_app. fold (run_p ops).
+  pose proof (ps_inv_run ops) as I. revert I H. generalize (run_p ops) as ps.
+  induction ops' as [|op ops' IH]; intros ps I H; cbn [fold_left]; [exact H|].
+  apply IH; [apply ps_inv_step; exact I|].
+  destruct op as [et' cs|]; cbn [step_p].
+  - unfold define_p. pose proof (define_keeps_existing (ps_reg ps) et' cs et sc H) as K. unfold define_reg in K.
+    destruct (define (ps_reg ps) et' cs); cbn [fst ps_reg]; exact K.
+  - rewrite (ps_inv_restart ps I). exact H.
+Qed.
+
+Example restart_witness :
+  let ops := [OpDefine w_t [(w_s, SPrim [105; 110; 116]%N)]; OpDefine w_t [(w_s, SPrim [115; 116; 114]%N)]; OpRestart] in
+  reg_get (ps_reg (run_p ops)) w_t = Some [(w_s, FPrim TI64)] /\ length (ps_log (run_p ops)) = 1%nat.
+Proof. vm_compute. split; reflexivity. Qed.
